@@ -106,10 +106,16 @@ impl Prop for C05 {
                 plan: vec![],
                 entropy: rng.u128(),
                 twin_entropy: Some(rng.u128()),
+                sweep: false,
             });
         }
-        let bias = rng.pct(70);
+        let bias = rng.pct(85);
         let mut cfg = GenCfg::draw(&mut rng, bias);
+        if bias && rng.pct(60) {
+            // a small pool made of colliding names only: collisions under demotion become the common case
+            cfg.elem_names.truncate(rng.range(2, 4));
+            cfg.max_kids = cfg.max_kids.max(3);
+        }
         // entropy can only matter where children get demoted: make absences common
         if rng.pct(70) {
             cfg.p_absent = *rng.pick(&[30, 60]);
